@@ -169,7 +169,13 @@ def read(matrix, parse=True):
     if len(dbits) != T.data_bits(ver, level):
         rep.bad('internal: data bits %d != capacity %d' % (len(dbits), T.data_bits(ver, level)))
     if parse:
-        parse_stream(rep)
+        try:
+            parse_stream(rep)
+        except Exception as e:          # the reader reports, it never crashes on garbage
+            rep.bad('data stream cannot be parsed (%s: %s)' % (type(e).__name__, e))
+            if rep.segments is None:
+                rep.segments = []
+                rep.payload = b''
     return rep
 
 
@@ -222,7 +228,11 @@ def parse_stream(rep):
                 if rest < term_len:
                     rep.bad('stream ends inside a segment header')
                     break
-                mode = {0: 'numeric', 1: 'alphanumeric', 2: 'byte', 3: 'kanji'}[take(mi_bits)] if mi_bits else 'numeric'
+                mi = take(mi_bits) if mi_bits else 0
+                if mi > 3:
+                    rep.bad('unknown Micro QR mode indicator %s at bit %d' % (bin(mi), p - mi_bits))
+                    break
+                mode = {0: 'numeric', 1: 'alphanumeric', 2: 'byte', 3: 'kanji'}[mi]
                 if not T.mode_supported(mode, ver):
                     rep.bad('mode %s not available in %s' % (mode, ver))
                     break
